@@ -11,9 +11,9 @@ from harness.tr import mk_array
 EVIDENCE = {
     "functions": ["QuadricTensor.intersect (2-D branch)", "QuadricTensor.components", "QuadricTensor.tangent/is_tangent/contains/dual/is_degenerate", "Conic.tangent/polar", "utils.math.hat_matrix/adjugate/inv",
                   "numpy.lib.scimath.sqrt (principal complex square root as constrained pair)"],
-    "bounds": "2-D: symmetric 3x3 matrix and line with free real entries (so secant, tangent, missing-in-real-points, through the origin are all inside the query); "
-              "duals of every quadric class with concrete parameters; 3-D sphere x line through two free points",
-    "outside": "completeness of the 3-D intersection, quadric collections (positionwise agreement is C04), rounding",
+    "bounds": "2-D: lattice conic x free real line (returned points on both; two different points unless the line is tangent), free symmetric 3x3 matrix x lattice line, lattice pair of lines x free line (exactly the two meets); "
+              "duals of every quadric class with concrete parameters; concrete 3-D quadric collections (supplementary)",
+    "outside": "free conic x free line at once, 3-D sphere x line (SVD stub: every path leaves the stub's rank assumption; tier attempt), completeness of the 3-D intersection, quadric collections (positionwise agreement is C04), rounding",
     "assumptions": ["ProjectiveTensor.__eq__/is_multiple: lemma proved in C20", "np.linalg.inv exact (stub)", "np.linalg.qr contract stub in the 3-D projection"],
 }
 
@@ -304,6 +304,34 @@ def case_sphere_line(ctx):
         ctx.require(f"sphere-line:point[{k}]-on-sphere", ctx.eq(d2, r * r * pe[3] * pe[3]))
 
 
+SL_CONFIGS = [((1, -2, 1), (0, 0, 0), (None, 1, 2)), ((0, 0, 0), (3, 1, -1), (1, None, 0)), ((2, 1, 0), (2, 1, -3), (0, 2, None))]
+
+
+def mk_sphere_line_lattice(k, free_radius=True):
+    """3-D: sphere with lattice centre and free radius, line through a lattice point and a point with one free coordinate:
+    every returned point lies on both; a line through the centre always meets the sphere in two different points"""
+    def case(ctx):
+        from geometer import Sphere, Point, Line
+        c, a3, b3 = SL_CONFIGS[k]
+        r = ctx.real("r") if free_radius else 2
+        if free_radius:
+            ctx.assume(ctx.lt(0, r))
+        S = Sphere(Point(ctx.const(list(c) + [1], float)), r)
+        s_ = ctx.real("s")
+        a = list(a3) + [1]
+        b = [s_ if x is None else x for x in b3] + [1]
+        pts = S.intersect(Line(Point(ctx.const(a, float)), Point(mk_array(ctx, b))))
+        ctx.outcome(f"n={len(pts)}")
+        ctx.require("sphere-line:at-most-two", len(pts) <= 2)
+        for i, p in enumerate(pts):
+            pe = E(p)
+            ctx.require(f"sphere-line:point[{i}]-on-line", R.rank_deficient(ctx, [a, b, pe]))
+            d2 = sum((pe[j] - c[j] * pe[3]) * (pe[j] - c[j] * pe[3]) for j in range(3))
+            ctx.require(f"sphere-line:point[{i}]-on-sphere", ctx.eq(d2, r * r * pe[3] * pe[3]))
+            ctx.require(f"sphere-line:point[{i}]-nonzero", R.nonzero(ctx, pe))
+    return case
+
+
 def cases(tier, seed):
     Q, T = ("quick", "thorough"), ("thorough",)
     cs = []
@@ -324,5 +352,8 @@ def cases(tier, seed):
     add("dual", case_dual, tiers=Q, max_paths=2000)
     cs.append(Case("dual_of_every_class", custom_dual_classes, kind="custom"))
     cs.append(Case("quadric_collection_3d", custom_quadric_collection_3d, kind="custom"))
+    for k in range(len(SL_CONFIGS)):
+        add(f"sphere_line_3d_lattice{k}", mk_sphere_line_lattice(k), tiers=("attempt",), max_paths=3000)
+        add(f"sphere_line_3d_lattice{k}_r2", mk_sphere_line_lattice(k, False), tiers=("attempt",), max_paths=3000)
     add("sphere_line_3d", case_sphere_line, tiers=("attempt",), max_paths=3000)
     return cs
